@@ -94,6 +94,10 @@ def generate(seed, tier='quick'):
            'chunk_size': rng.choice([32, 64, 256, 16384]),
            'uuid_collision': backend != 'cloud' and rng.random() < 0.15,
            'faults': None, 'horizon': 3.0}
+    if backend == 'redis':
+        # the key prefix is configuration: any string is legal
+        scn['redis_prefix'] = rng.choice(['slimta:', 'slimta:', 'mailq-',
+                                          'mx1.', 'slimta:inbound:', 'q'])
     if rng.random() < 0.25 and backend != 'dict':
         # separate configuration: substrate faults at chosen ordinals
         kinds = {'disk': ['EIO', 'ENOSPC'], 'redis': ['conn'],
